@@ -58,6 +58,47 @@ def scenario(rng, ctype, r, c, F, leak_samples=0):
     return None, None
 
 
+def unequal_scenario(rng, ctype, F, lo_share=0.0):
+    """UE14 / E12, two columns: the column system of port 1 is exactly
+    determined, that of port 2 has spare equations (extra reflects measured on
+    port 2 only).  The consistency test then rests on the later system
+    alone."""
+    for _ in range(12):
+        sc = calgen.Scenario(ctype, 2, 2, F, rng, form="m")
+        # a strong source match on port 2: the residual of a reflect equation
+        # and the error of its measurement then differ by a factor far from 1
+        for en in sc.enet:
+            el, er, em, et = en.cols[1]
+            em[1, 1] = rng.uniform(0.55, 0.8) * np.exp(
+                2j * np.pi * rng.random())
+        for q in (1, 2):
+            for _k in range(3):
+                sc.add_reflect([q], [sc.rparam(1.0, False)])
+        if rng.random() < 0.5:
+            sc.add_through(1, 2)
+        else:
+            sc.add_line(1, 2)
+        # the extra measurements repeat one reflect whose phase puts
+        # |1 - s em22| at its largest (or smallest) value
+        sign = 1.0 if rng.random() < lo_share else -1.0
+        vals = np.array([sign * np.exp(-1j * np.angle(en.cols[1][2][1, 1]))
+                         for en in sc.enet])
+        for _k in range(int(rng.integers(4, 9))):
+            sc.add_reflect([2], [calgen.Param("vector" if F > 1 else "scalar",
+                                              vals.copy())])
+        sc.choose_entries()
+        for st in sc.stds:
+            st.full_rows = st.full_cols = True
+        ok, kappa = sc.well_determined(300.0)
+        if not ok:
+            continue
+        spare = [a["equations"] - (a["unknowns"] - 1)
+                 for a in sc.classify(0)[0]]
+        if len(spare) == 2 and spare[0] == 0 and spare[1] >= 2:
+            return sc, kappa, ("unequal" if sign < 0 else "unequal-lo")
+    return None, None, "unequal"
+
+
 def emit_cal(s, sc, vn, name, m_error=None, pvalue=None, uid=None, tag=""):
     """one vnacal_new_t on the shared $vc; returns lines"""
     L = {}
@@ -267,7 +308,8 @@ def work_exact(chunk_id, payload):
 
 
 def work_rates(chunk_id, payload):
-    seed, n, binary, workroot, outlier = payload
+    seed, n, binary, workroot, outlier = payload[:5]
+    lo_share = payload[5] if len(payload) > 5 else 0.0
     rng = np.random.default_rng([seed, chunk_id, 2828, int(outlier)])
     part = dict(evaluations=0, counters={}, maxima={}, distinct=set(),
                 samples=[], violations=[], inconclusive=[], harness_errors=[])
@@ -282,7 +324,12 @@ def work_rates(chunk_id, payload):
         # "sweep": two frequencies whose noise differs by a factor 10..30 (in
         # either direction); every frequency is judged with its own sigma
         F = 2 if regime == "sweep" else 1
-        sc, kappa = scenario(rng, ctype, p, p, F, leak_samples=6)
+        unequal = (not outlier) and regime == "floor" and \
+            ctype in physics.COLUMN_TYPES and rng.random() < 0.5
+        if unequal:
+            sc, kappa, regime = unequal_scenario(rng, ctype, F, lo_share)
+        else:
+            sc, kappa = scenario(rng, ctype, p, p, F, leak_samples=6)
         if sc is None:
             continue
         if ctype in ("T16", "U16"):
@@ -290,7 +337,7 @@ def work_rates(chunk_id, payload):
             if not (sc.well_determined(300.0)[0] and overdetermined(sc)):
                 continue
         nfv = None
-        if regime == "floor":
+        if regime in ("floor", "unequal", "unequal-lo"):
             nf, tr = 10 ** rng.uniform(-5, -3), None
         elif regime == "sweep":
             nf, tr = 10 ** rng.uniform(-5, -3.5), None
@@ -646,7 +693,8 @@ def main():
     # chunk sizes are multiples of 32 so that every (type, regime) cell gets
     # the same share
     per = max(32, (n_rate // nch) // 32 * 32)
-    for part in R.pmap(work_rates, [(chk.seed, per, binary, chk.workroot, False)
+    for part in R.pmap(work_rates, [(chk.seed, per, binary, chk.workroot, False,
+                                     0.0 if quick else 0.3)
                                     for _ in range(nch)]):
         chk.merge(part)
     per = max(32, (n_out // nch) // 32 * 32)
